@@ -518,7 +518,9 @@ func (s *configurationStore) getCommitted(ctx context.Context, id configapi.Conf
 }
 
 func (s *configurationStore) getApplied(ctx context.Context, id configapi.ConfigurationID) (_map.Map[string, *configapi.PathValue], error) {
-	return s.getTarget(ctx, s.applied, id)
+	// The applied values live in a primitive of their own: sharing "configurations-<id>" with the committed values
+	// lets the apply of an earlier transaction overwrite what a later transaction has committed
+	return s.getTarget(ctx, s.applied, configapi.ConfigurationID(fmt.Sprintf("%s-applied", id)))
 }
 
 func (s *configurationStore) store(ctx context.Context, store _map.Map[string, *configapi.PathValue], values map[string]*configapi.PathValue) error {
